@@ -1019,6 +1019,19 @@ fn app_step(w: &mut World, st: &mut St, n: usize, tape: &mut Tape) -> Result<boo
         w.stats.inc("app.keep-alive-reconfigured");
         did = true;
     }
+    // ... and the delayed-ACK and Nagle settings (an ACK may be waiting for its delay at that moment)
+    if a.ever_established && tape.draw(40) == 39 {
+        if tape.draw(2) == 0 {
+            let new = *tape.pick(&[None, Some(10_000i64), Some(200_000), None]);
+            guard("tcp::set_ack_delay", || s.set_ack_delay(new.map(dur_us)))?;
+            w.stats.inc("app.ack-delay-reconfigured");
+        } else {
+            let new = tape.draw(2) == 0;
+            guard("tcp::set_nagle_enabled", || s.set_nagle_enabled(new))?;
+            w.stats.inc("app.nagle-reconfigured");
+        }
+        did = true;
+    }
     if a.err || a.aborted {
         return Ok(false);
     }
